@@ -18,7 +18,8 @@ EXPLANATION = (
     " (e) Every retain on the rerun queue keeps the commands of other kinds."
     " Every path that replaces the searcher in its map purges the replaced searcher's reruns, also paths that schedule nothing (cache-only). A query site outside the named handlers counts as a refresh source only if it is driven by a DnsCache::refresh_due_* result."
     " The retain predicate of a rerun purge drops exactly the entries whose name equals the search's name (polarity)."
-    " (h) A stop handler that takes instances out of pending_resolves also purges their Resolve reruns.")
+    " (h) A stop handler that takes instances out of pending_resolves also purges their Resolve reruns."
+    " (i) add_interface reports an address as new only on paths that store it (otherwise every IP check finds it new and sends a query per browse).")
 UNDECIDED = ["query rates over long horizons as numbers", "interplay of refresh queries and the schedule"]
 
 # frozen classification of query sources (function -> class); a caller not in the table is an unclassified source
@@ -196,6 +197,7 @@ def run(ctx, P):
     r2.verify_chain_is_finite(ctx, P, "C19g")
     from . import r4
     r4.pending_cleared_only_with_its_reruns(ctx, P, "C19h")
+    r4.new_address_reported_only_when_stored(ctx, P, "C19i")
     from . import c13
     c13.clause_c(ctx, P)          # stopping a search ends its schedule (shared with C13)
     clause_a(ctx, P)
